@@ -1,7 +1,254 @@
 package main
 
-// Structural obligations of the pipeline properties (goroutines, joins, locks).
+// Structural obligations of the pipeline / concurrency properties: lock
+// discipline (lock-held), goroutine joins, channel close ownership.  They are
+// decided by dominance and use-def analyses over the SSA of the repository.
+
+import (
+	"fmt"
+	"go/types"
+	"sort"
+	"strings"
+
+	"golang.org/x/tools/go/ssa"
+)
+
+// ---------------------------------------------------------------- lock-held
+
+type lockCall struct {
+	ins     ssa.Instruction
+	write   bool      // Lock (true) or RLock (false)
+	base    ssa.Value // object whose mutex field is locked
+	deferred bool
+	unlock  bool
+}
+
+// mutexCalls finds Lock/RLock/Unlock/RUnlock calls in fn on the mutex field mfield of objects of type t.
+func mutexCalls(fn *ssa.Function, t types.Type, mfield int) []lockCall {
+	var out []lockCall
+	for _, b := range fn.Blocks {
+		for _, ins := range b.Instrs {
+			var cc *ssa.CallCommon
+			deferred := false
+			switch x := ins.(type) {
+			case *ssa.Call:
+				cc = &x.Call
+			case *ssa.Defer:
+				cc = &x.Call
+				deferred = true
+			default:
+				continue
+			}
+			callee := cc.StaticCallee()
+			if callee == nil || callee.Pkg == nil || callee.Pkg.Pkg.Path() != "sync" || len(cc.Args) == 0 {
+				continue
+			}
+			name := callee.Name()
+			if name != "Lock" && name != "RLock" && name != "Unlock" && name != "RUnlock" {
+				continue
+			}
+			// receiver: either &obj.mu (value mutex field) or load of obj.mu (pointer field)
+			recv := cc.Args[0]
+			var fa *ssa.FieldAddr
+			if u, ok := recv.(*ssa.UnOp); ok {
+				fa, _ = u.X.(*ssa.FieldAddr)
+			} else {
+				fa, _ = recv.(*ssa.FieldAddr)
+			}
+			if fa == nil || fa.Field != mfield || !types.Identical(derefType(fa.X.Type()), t) {
+				continue
+			}
+			out = append(out, lockCall{ins: ins, write: name == "Lock" || name == "Unlock", base: fa.X, deferred: deferred, unlock: strings.HasSuffix(name, "nlock")})
+		}
+	}
+	return out
+}
+
+func instrDominates(a, b ssa.Instruction) bool {
+	if a.Block() == b.Block() {
+		for _, ins := range a.Block().Instrs {
+			if ins == a {
+				return true
+			}
+			if ins == b {
+				return false
+			}
+		}
+	}
+	return a.Block().Dominates(b.Block())
+}
+
+// holds reports whether at instruction at, fn holds the mutex of base (write lock if needWrite)
+// with a deferred matching unlock.
+func holds(fn *ssa.Function, calls []lockCall, base ssa.Value, at ssa.Instruction, needWrite bool) bool {
+	locked, unlocked := false, false
+	for _, c := range calls {
+		if c.base != base {
+			continue
+		}
+		if !c.unlock && !c.deferred && instrDominates(c.ins, at) && (c.write || !needWrite) {
+			locked = true
+			// matching deferred unlock
+			for _, d := range calls {
+				if d.base == base && d.unlock && d.deferred && d.write == c.write && instrDominates(c.ins, d.ins) {
+					unlocked = true
+				}
+			}
+		}
+	}
+	return locked && unlocked
+}
+
+func (e *Engine) lockHeld(prop string) []*Oblig {
+	var out []*Oblig
+	var keys []string
+	for k := range e.lib.Types {
+		keys = append(keys, k)
+	}
+	sort.Strings(keys)
+	for _, tk := range keys {
+		ts := e.lib.Types[tk]
+		if len(ts.Guarded) == 0 {
+			continue
+		}
+		t := e.typeByKey(tk)
+		if t == nil {
+			continue
+		}
+		st := t.Underlying().(*types.Struct)
+		fieldIdx := func(name string) int {
+			for i := 0; i < st.NumFields(); i++ {
+				if st.Field(i).Name() == name {
+					return i
+				}
+			}
+			return -1
+		}
+		pkgPath := tk[:strings.LastIndex(tk, ".")]
+		var problems []string
+		type access struct {
+			fn    *ssa.Function
+			fa    *ssa.FieldAddr
+			write bool
+		}
+		// unexported helpers that access guarded fields without locking: checked at their call sites
+		helperNeeds := map[*ssa.Function]bool{} // fn -> needs write lock
+		var gnames []string
+		for g := range ts.Guarded {
+			gnames = append(gnames, g)
+		}
+		sort.Strings(gnames)
+		for _, fn := range e.repoFunctions() {
+			for _, g := range gnames {
+				gi := fieldIdx(g)
+				mi := fieldIdx(ts.Guarded[g])
+				if gi < 0 || mi < 0 {
+					problems = append(problems, "unknown field in guarded_by: "+g)
+					continue
+				}
+				calls := mutexCalls(fn, t, mi)
+				for _, b := range fn.Blocks {
+					for _, ins := range b.Instrs {
+						fa, ok := ins.(*ssa.FieldAddr)
+						if !ok || fa.Field != gi || !types.Identical(derefType(fa.X.Type()), t) {
+							continue
+						}
+						if fn.Pkg == nil || fn.Pkg.Pkg.Path() != pkgPath {
+							problems = append(problems, fmt.Sprintf("%s: guarded field %s accessed outside package %s", e.pos(ins), g, pkgPath))
+							continue
+						}
+						if _, fresh := fa.X.(*ssa.Alloc); fresh {
+							continue // object under construction, not yet shared
+						}
+						w := isWriteAccess(fa)
+						if holds(fn, calls, fa.X, ins, w) {
+							continue
+						}
+						// helper method: receiver is the first parameter and the method is unexported
+						if len(fn.Params) > 0 && fa.X == fn.Params[0] && !fn.Object().Exported() {
+							if w {
+								helperNeeds[fn] = true
+							} else if _, seen := helperNeeds[fn]; !seen {
+								helperNeeds[fn] = false
+							}
+							continue
+						}
+						kind := "read"
+						if w {
+							kind = "write"
+						}
+						problems = append(problems, fmt.Sprintf("%s: %s of guarded field %s in %s without holding %s (with a deferred unlock)", e.pos(ins), kind, g, fn.Name(), ts.Guarded[g]))
+					}
+				}
+			}
+		}
+		// call sites of helpers
+		for h, needW := range helperNeeds {
+			callers := 0
+			for _, fn := range e.repoFunctions() {
+				mi := fieldIdx(ts.Guarded[gnames[0]])
+				calls := mutexCalls(fn, t, mi)
+				for _, b := range fn.Blocks {
+					for _, ins := range b.Instrs {
+						c, ok := ins.(*ssa.Call)
+						if !ok || c.Call.StaticCallee() != h {
+							continue
+						}
+						callers++
+						if !holds(fn, calls, c.Call.Args[0], ins, needW) {
+							problems = append(problems, fmt.Sprintf("%s: %s calls %s without holding the lock it needs", e.pos(ins), fn.Name(), h.Name()))
+						}
+					}
+				}
+			}
+			if callers == 0 {
+				problems = append(problems, fmt.Sprintf("helper %s accesses guarded fields without a lock and has no checked call site", h.Name()))
+			}
+		}
+		out = append(out, structOblig("lock-held/"+tk[strings.LastIndex(tk, "/")+1:], "lock-held",
+			fmt.Sprintf("fields %s of %s are read only under RLock/Lock and written only under Lock of their mutex, with a deferred unlock; not touched outside the package", strings.Join(gnames, ", "), tk),
+			[]string{prop}, problems))
+	}
+	return out
+}
+
+// isWriteAccess: the field address is stored to, or the map/slice loaded from it is updated.
+func isWriteAccess(fa *ssa.FieldAddr) bool {
+	for _, ref := range *fa.Referrers() {
+		switch r := ref.(type) {
+		case *ssa.Store:
+			if r.Addr == fa {
+				return true
+			}
+		case *ssa.UnOp:
+			for _, use := range *r.Referrers() {
+				switch u := use.(type) {
+				case *ssa.MapUpdate:
+					if u.Map == r {
+						return true
+					}
+				case *ssa.Call:
+					if b, ok := u.Call.Value.(*ssa.Builtin); ok && b.Name() == "delete" && u.Call.Args[0] == r {
+						return true
+					}
+				case *ssa.IndexAddr:
+					for _, rr := range *u.Referrers() {
+						if s, ok := rr.(*ssa.Store); ok && s.Addr == u {
+							return true
+						}
+					}
+				}
+			}
+		}
+	}
+	return false
+}
 
 func (e *Engine) pipelineObligations(prop string) []*Oblig {
-	return nil
+	var out []*Oblig
+	switch prop {
+	case "C18":
+		out = append(out, e.lockHeld(prop)...)
+	}
+	return out
 }
